@@ -81,7 +81,9 @@ func lit(s ...string) []func() string {
 // Str returns a string-valued expression.
 func (g *Gen) Str(d int) string {
 	leaves := lit(`name`, `nest.c`, `txt`, `one.k`, `items[0].p`, `s[1]`, `"lit"`, `"a z b"`,
-		// Go structs in typed documents (undefined elsewhere)
+		// Go structs in typed documents (undefined elsewhere). No $keys /
+		// $each / ** over them: inside a transform the struct has become a
+		// map (the clone goes through JSON) and its member order is Go's
 		`rec.P`, `rec.Sub.P`, `val.P`, `recs[1].P`, `rec.In.c`, `$string(rec.Q)`, `rec.Tags[0]`, `$join(recs.P, "-")`,
 		`name.$uppercase()`, `nest.c.$substringAfter("X")`, `name.$substringBefore("z")`,
 		`name.$pad(8,"-")`, `name.$substring(1,2)`, `txt.$trim()`, `n.$string()`, `name.$lowercase()`,
@@ -265,7 +267,7 @@ func (g *Gen) ArrN(d int) string {
 		// `windows` holds two sub-slices of `nums` (array of arrays over one backing array)
 		`windows.*`, `$.windows.*`, `[windows].*`, `windows[0]`, `$append(windows[0], windows[1])`, `$reverse(windows).*`,
 		// one step yielding several of the document's arrays
-		`recs.Q`, `[rec.Q, val.Q]`, `recs^(Q).Q`, `$map(recs, function($r){$r.Q * 2})`, `rec.**.Q`,
+		`recs.Q`, `[rec.Q, val.Q]`, `recs^(Q).Q`, `$map(recs, function($r){$r.Q * 2})`,
 		`matrix[0]`, `matrix[1]`, `matrix.$`, `$append(matrix[0], matrix[1])`, `$reverse(matrix)[0]`, `matrix[1][0]`, `$map(matrix, $count)`, `$zip(matrix[0], matrix[1]).$sum($)`,
 		`groups.rows`, `$.groups.rows`, `groups[g = "a"].rows`, `groups.rows[0]`, `groups.rows^(>$)`, `groups.(rows)`,
 		`groups.rows[$ > 1]`, `$append(groups.rows, 1)`, `$reverse(groups).rows`, `groups^(>g).rows`, `groups.$count(rows)`,
@@ -302,8 +304,8 @@ func (g *Gen) ArrS(d int) string {
 		`items.p.$substringAfter("z")`, `items.(p.$uppercase())`, `items[q > $$.id].p.$lowercase()`,
 		`$keys(one)`, `one.$keys()`, `one.$each(function($v,$k){$k & $v})`, `name.$split("z")`,
 		`items.p.$pad($$.n.$string().$length() + 8)`, `name.$match(/[a-z]/).match`,
-		`recs.P`, `rec.Tags`, `recs^(>Q).P`, `$keys(rec)`, `recs.Tags`, `$sort(recs, function($a,$b){$a.Q < $b.Q}).P`, `$reverse(recs).P`,
-		`$append(rec.Tags, "c")`, `recs[Q > 0].P`, `$each(rec, function($v,$k){$k})`, `$reverse(rec.Tags)`, `$sort(rec.Tags)`,
+		`recs.P`, `rec.Tags`, `recs^(>Q).P`, `recs.Tags`, `$sort(recs, function($a,$b){$a.Q < $b.Q}).P`, `$reverse(recs).P`,
+		`$append(rec.Tags, "c")`, `recs[Q > 0].P`, `$reverse(rec.Tags)`, `$sort(rec.Tags)`,
 		`groups.tags`, `groups.g`, `groups[g = "a"].tags`, `groups.tags^(<$)`, `$append(groups.tags, "z")`, `groups.(tags)`)
 	nodes := []func(d int) string{
 		func(d int) string { return `$split(` + g.Str(d) + `, ` + g.pick(`"z"`, `/z/`, `" "`) + `)` },
